@@ -19,7 +19,7 @@ import inspect
 import json
 import textwrap
 from abc import ABC, abstractmethod
-from types import CodeType
+from types import CodeType, MethodType
 from typing import Callable, Set, Optional, List, Union, Type
 from weakref import WeakKeyDictionary
 
@@ -342,6 +342,12 @@ class HashRule(ABC):
     rule_hash = None  # type: Optional[str]
     """The hash computed for this hash rule, in the format of a hex string, or `None`"""
 
+    watch_only = False  # type: bool
+    """
+    If `True`, the rule never contributes to the hash and describes no dependency: it is only
+    there to notice a change. Such rules are not reported among the rules of a function.
+    """
+
     def __init__(
         self, key: str, parent_symbol: Optional[str], symbol: str, first_level: bool
     ):
@@ -580,6 +586,18 @@ class HashRule(ABC):
                 "No hash rules matched.".format(symbol, src_fn.__name__, symbol_part)
             )
 
+        # Nothing can be hashed for this symbol, but it may be re-bound later to something
+        # that can: keep watching it.
+        result.add(
+            UnhashedSymbolHashRule(
+                parent_symbol=parent_symbol,
+                symbol=symbol_part,
+                resolver=resolver,
+                obj=ref,
+                first_level=first_level,
+            )
+        )
+
     @abstractmethod
     def clone(self) -> "HashRule":
         pass
@@ -676,6 +694,86 @@ class UndefinedSymbolHashRule(HashRule):
 
     def __repr__(self):
         return "UndefinedSymbolHashRule(parent_symbol={parent_symbol}, symbol={symbol})".format(
+            parent_symbol=repr(self.parent_symbol), symbol=repr(self.symbol)
+        )
+
+
+class UnhashedSymbolHashRule(HashRule):
+    """
+    Hash rule for a symbol that is bound to something no other rule can hash (an object of
+    an unsupported type, a builtin, a module, a function outside the package scope). It does
+    not contribute to the hash; it only notices when the symbol is bound to something else,
+    which other rules may then be able to hash.
+
+    """
+
+    # No try_resolve for UnhashedSymbolHashRule since these are constructed when no other
+    # rule applies
+
+    watch_only = True
+
+    resolver = None  # type: Callable
+    ref = None  # type: object
+    """What the symbol was bound to when the rule was made"""
+
+    def __init__(
+        self,
+        parent_symbol: str,
+        symbol: str,
+        resolver: Callable,
+        obj: object,
+        first_level: bool,
+    ):
+        super().__init__(
+            key="UnhashedSymbol;{};{}".format(parent_symbol, symbol),
+            parent_symbol=parent_symbol,
+            symbol=symbol,
+            first_level=first_level,
+        )
+        self.resolver = resolver
+        self.ref = obj
+
+    def clone(self) -> HashRule:
+        return UnhashedSymbolHashRule(
+            self.parent_symbol, self.symbol, self.resolver, self.ref, self.first_level
+        )
+
+    def collect_transitive_dependencies(
+        self,
+        result: Set[HashRule],
+        root_fn: MementoFunctionType,
+        package_scope: Set[str],
+        blacklist: List[object],
+    ):
+        # Nothing is known about what the symbol is bound to
+        pass
+
+    def compute_hash(self) -> Optional[str]:
+        # Does not impact the hash until the symbol is bound to something that does
+        return None
+
+    def did_change(self) -> bool:
+        new_ref = self.resolver()
+        if new_ref is self.ref:
+            return False
+        if isinstance(new_ref, MethodType) and new_ref == self.ref:
+            # Looking a method up on an object makes a new, equal bound method every time
+            return False
+        # Bound to something else. That only matters if a rule can hash it now.
+        return any(
+            strategy.try_resolve(
+                self.parent_symbol,
+                self.symbol,
+                self.resolver,
+                new_ref,
+                first_level=self.first_level,
+            )
+            is not None
+            for strategy in HashRule.all_rules
+        )
+
+    def __repr__(self):
+        return "UnhashedSymbolHashRule(parent_symbol={parent_symbol}, symbol={symbol})".format(
             parent_symbol=repr(self.parent_symbol), symbol=repr(self.symbol)
         )
 
@@ -1008,6 +1106,16 @@ class NonMementoFunctionHashRule(HashRule):
 
         # Only add this function and descend if it is within the package scope.
         if inspect.getmodule(self.src_fn).__package__ not in package_scope:
+            # It is not hashed, but the symbol may be re-bound to something that is
+            result.add(
+                UnhashedSymbolHashRule(
+                    parent_symbol=self.parent_symbol,
+                    symbol=self.symbol,
+                    resolver=self.resolver,
+                    obj=self.src_fn,
+                    first_level=self.first_level,
+                )
+            )
             return
 
         # Add self
